@@ -98,7 +98,11 @@ func (in *Interp) lookupStub(fn *ssa.Function, name string) (stubFn, bool) {
 }
 
 func noopStub(in *Interp, fr *frame, fn *ssa.Function, args []Value) Value {
-	return in.opaqueOrZero(fn.Signature.Results())
+	res := fn.Signature.Results()
+	if res.Len() == 1 {
+		return in.opaqueOrZero(res.At(0).Type())
+	}
+	return in.opaqueOrZero(res)
 }
 
 func (in *Interp) stubGlobal(g *ssa.Global) Value {
